@@ -35,9 +35,9 @@ theorem skipEmptyLines_spec (s : BState) (fuel from_ : Nat) (hlen : s.lineMax + 
           exact ⟨Nat.le_refl _, fun _ => ⟨l, hl, by simpa using hne⟩⟩
     · exact ⟨Nat.le_refl _, fun h => absurd h (by omega)⟩
 
-theorem frameEq_refl (s : BState) : s.FrameEq s := ⟨rfl, rfl, rfl, rfl⟩
+theorem frameEq_refl (s : BState) : s.FrameEq s := ⟨⟨rfl, rfl⟩, rfl, rfl, rfl⟩
 theorem frameEq_trans {a b c : BState} (h1 : a.FrameEq b) (h2 : b.FrameEq c) : a.FrameEq c :=
-  ⟨h2.1.trans h1.1, h2.2.1.trans h1.2.1, h2.2.2.1.trans h1.2.2.1, h2.2.2.2.trans h1.2.2.2⟩
+  ⟨⟨h2.1.1.trans h1.1.1, h2.1.2.trans h1.1.2⟩, h2.2.1.trans h1.2.1, h2.2.2.1.trans h1.2.2.1, h2.2.2.2.trans h1.2.2.2⟩
 
 /-- the chain: never raises; a match makes progress; a miss leaves `line`; the frame is kept -/
 theorem chain_ok (P : BState → Nat → Prop) (hP : FrameClosed P) (rules : List BRule) (hok : ∀ r ∈ rules, RuleOK P r)
@@ -54,7 +54,7 @@ theorem chain_ok (P : BState → Nat → Prop) (hP : FrameClosed P) (rules : Lis
     | true => exact ⟨true, s', rfl, hr.frame _ _ _ _ _ hc hrs, fun _ => hr.progress _ _ _ _ hc hrs, by simp⟩
     | false =>
       have hfr := hr.frame _ _ _ _ _ hc hrs
-      obtain ⟨m2, s2, h2, hf2, hp2, hm2⟩ := ih (fun q hq => hok q (by simp [hq])) s' (hc.transfer hP hfr)
+      obtain ⟨m2, s2, h2, hf2, hp2, hm2⟩ := ih (fun q hq => hok q (by simp [hq])) s' (hc.transfer hP hfr (hr.miss _ _ _ _ hc hrs))
       refine ⟨m2, s2, h2, frameEq_trans hfr hf2, (by rw [← hfr.2.1]; exact hp2), ?_⟩
       intro hm; rw [hm2 hm]; exact hr.miss _ _ _ _ hc hrs
 
@@ -78,7 +78,7 @@ theorem chain_matches (P : BState → Nat → Prop) (hP : FrameClosed P) (rules 
       · obtain ⟨s'', hs''⟩ := hqa s line endLine hc
         rw [hs''] at hrs; cases hrs
       · have hfr := hr.frame _ _ _ _ _ hc hrs
-        exact ih (fun q' hq' => hok q' (by simp [hq'])) ⟨q, hq, hqa⟩ s' (hc.transfer hP hfr)
+        exact ih (fun q' hq' => hok q' (by simp [hq'])) ⟨q, hq, hqa⟩ s' (hc.transfer hP hfr (hr.miss _ _ _ _ hc hrs))
 
 theorem skipEmptyLines_le (s : BState) (fuel from_ : Nat) : skipEmptyLines s fuel from_ ≤ max from_ s.lineMax := by
   induction fuel generalizing from_ with
@@ -126,14 +126,14 @@ theorem block_total_lines (P : BState → Nat → Prop) (hP : FrameClosed P) (ru
       have hl1max : line1 ≤ s.lineMax := by omega
       split
       · rename_i hge
-        exact ⟨_, rfl, ⟨rfl, rfl, rfl, rfl⟩, ⟨fun _ => ⟨hsk.1, hl1max, fun _ => by show line < line1; omega⟩, fun h => absurd hlt h⟩⟩
+        exact ⟨_, rfl, ⟨⟨rfl, rfl⟩, rfl, rfl, rfl⟩, ⟨fun _ => ⟨hsk.1, hl1max, fun _ => by show line < line1; omega⟩, fun h => absurd hlt h⟩⟩
       · rename_i hnge
         have hlt1 : line1 < s.lineMax := by omega
         obtain ⟨l, hl, hne⟩ := hsk.2 hlt1
         simp only [hl]
         split
         · rename_i hout
-          refine ⟨_, rfl, ⟨rfl, rfl, rfl, rfl⟩, ⟨fun _ => ⟨hsk.1, hl1max, fun hstart => ?_⟩, fun h => absurd hlt h⟩⟩
+          refine ⟨_, rfl, ⟨⟨rfl, rfl⟩, rfl, rfl, rfl⟩, ⟨fun _ => ⟨hsk.1, hl1max, fun hstart => ?_⟩, fun h => absurd hlt h⟩⟩
           show line < line1
           by_cases heq : line1 = line
           · subst heq
@@ -143,11 +143,11 @@ theorem block_total_lines (P : BState → Nat → Prop) (hP : FrameClosed P) (ru
           · have := hsk.1; omega
         · rename_i hnout
           split
-          · exact ⟨_, rfl, ⟨rfl, rfl, rfl, rfl⟩, ⟨fun _ => ⟨by show line ≤ endLine; omega, hend, fun _ => hlt⟩, fun h => absurd hlt h⟩⟩
+          · exact ⟨_, rfl, ⟨⟨rfl, rfl⟩, rfl, rfl, rfl⟩, ⟨fun _ => ⟨by show line ≤ endLine; omega, hend, fun _ => hlt⟩, fun h => absurd hlt h⟩⟩
           · -- run the chain on s1 = { s with line := line1 }
-            have hfr1 : s.FrameEq { s with line := line1 } := ⟨rfl, rfl, rfl, rfl⟩
+            have hfr1 : s.FrameEq { s with line := line1 } := ⟨⟨rfl, rfl⟩, rfl, rfl, rfl⟩
             have hctx : CallCtx P { s with line := line1 } line1 endLine :=
-              ⟨hlen, by omega, hend, ⟨l, hl, hne, by simpa using hnout⟩, hP _ _ _ hfr1 hPs⟩
+              ⟨hlen, by omega, hend, ⟨l, hl, hne, by simpa using hnout⟩, rfl, hP _ _ _ hfr1 hPs⟩
             obtain ⟨s2, hs2⟩ := chain_matches P hP rules hok hlast { s with line := line1 } line1 endLine hctx
             obtain ⟨m, s2', hc, hfr2, hprog, _⟩ := chain_ok P hP rules hok { s with line := line1 } line1 endLine hctx
             rw [hs2] at hc
@@ -157,7 +157,7 @@ theorem block_total_lines (P : BState → Nat → Prop) (hP : FrameClosed P) (ru
             simp only [hs2]
             have hnle : ¬ (s2.line ≤ line1) := by omega
             simp only [hnle, if_false]
-            have hlen2 : s2.lineMax + 1 ≤ s2.lines.length := by rw [hfr2.1, hfr2.2.1]; exact hlen
+            have hlen2 : s2.lineMax + 1 ≤ s2.lines.length := by rw [hfr2.1.1, hfr2.2.1]; exact hlen
             have hend2 : endLine ≤ s2.lineMax := by rw [hfr2.2.1]; exact hend
             have hfr3 : s.FrameEq { s2 with tight := !hasEmpty } :=
               ⟨hfr2.1, hfr2.2.1, hfr2.2.2.1, hfr2.2.2.2⟩
@@ -189,7 +189,7 @@ theorem block_total_lines (P : BState → Nat → Prop) (hP : FrameClosed P) (ru
             have fin : ∀ (l' : Nat) (he : Bool) (st : BState), s.FrameEq st → st.line = l' → s2.line ≤ l' → l' ≤ s.lineMax →
                 ∃ s', blockLoop rules maxNesting endLine n l' he st = .ok s' ∧ s.FrameEq s' ∧ LinePost endLine line s s' := by
               intro l' he st hfst hstl hl' hl'max
-              have hlenst : st.lineMax + 1 ≤ st.lines.length := by rw [hfst.1, hfst.2.1]; exact hlen
+              have hlenst : st.lineMax + 1 ≤ st.lines.length := by rw [hfst.1.1, hfst.2.1]; exact hlen
               have hendst : endLine ≤ st.lineMax := by rw [hfst.2.1]; exact hend
               obtain ⟨s', hs', hfr', hpost⟩ := ih l' he st hlenst hendst (hP _ _ _ hfst hPs) (by omega)
               refine ⟨s', hs', frameEq_trans hfst hfr', ⟨fun _ => ?_, fun h => absurd hlt h⟩⟩
